@@ -622,6 +622,65 @@ def run(ctx):
                 ctx.ob('FS-WRITERS', key, ok, cs.where(), why if ok else (why + ' — a file that may hold the only copy of acknowledged records'), entry=b.root)
     ctx.floor('FS-WRITERS', 9)
 
+    # ------------------------------------------------------------------ 9. replay understands everything the APIs log
+    # For every record type a mutating API writes (discovered: TransactionType variants constructed outside the derived
+    # serde code), a *verified* record of that type must, on every path through the replay loop body, change the state
+    # map (insert / remove) or be counted as failed (or abort recovery with an error): a path that falls through to the
+    # next record without either silently drops an acknowledged operation (e.g. a batch removal logged without a value).
+    TT = 'persistent_state::TransactionType'
+    variants = [v['name'] for v in prog.adt(TT)['variants']]
+    written = set()
+    for b in bodies:
+        if b.derived or 'serde' in b.id or b.root.startswith(MGRT + '::replay_wal_file'):
+            continue
+        for r in b.aggregates():
+            if r.get('adt') == TT and r.get('var'):
+                written.add(r['var'])
+    nrt = 0
+    for b in bodies:
+        if not b.root.startswith(MGRT + '::replay_wal_file'):
+            continue
+        for bi, t in b.terms():
+            if t['k'] != 'switch':
+                continue
+            e = b.expr(t['d'])
+            while e.k == 'let':
+                e = e.c
+            if e.k != 'disc' or not e.a.strip().show().endswith('.transaction_type'):
+                continue
+            loops = [(h, ns) for h, ns in L.natural_loops(b) if bi in ns]
+            if not loops:
+                continue
+            h, ns = min(loops, key=lambda x: len(x[1]))
+            passn = set()
+            for cs in b.calls(r'HashMap::<.*>::(insert|remove)$|HashMap::(insert|remove)$|BTreeMap::<.*>::(insert|remove)$'):
+                passn.add(cs.bb)
+            for sbi, ssi, s in b.stmts():
+                if any(isinstance(p, str) and p.endswith('RecoveryStats::entries_failed') for p in s['d'][1:]):
+                    passn.add(sbi)
+            covered = {}
+            for n, (src, val, dst) in b.edges_of(bi):
+                if val == 'otherwise':
+                    continue
+                vname = variants[int(val)] if int(val) < len(variants) else None
+                if vname is None:
+                    continue
+                reach = b.reachable_from([n], passn)
+                silent = h in reach
+                covered[vname] = (not silent, n)
+            for vname in sorted(written):
+                nrt += 1
+                if vname not in covered:
+                    ctx.ob('REPLAY-TOTAL', 'replay-handles:%s' % vname, False, b.where(t.get('ln')),
+                           'records of type %s are written by an API but the replay match has no arm for them' % vname, entry=b.root)
+                    continue
+                okv, n = covered[vname]
+                ctx.ob('REPLAY-TOTAL', 'replay-handles:%s' % vname, okv, b.where(t.get('ln')),
+                       ('every path of a verified %s record through the replay loop changes the state map or counts a failure' % vname) if okv else
+                       ('a verified %s record can reach the next iteration without changing the state map and without being counted '
+                        '(e.g. a record without a value): an acknowledged operation is silently dropped at restart' % vname), entry=b.root)
+    ctx.floor('REPLAY-TOTAL', 3)
+
 
 def _runs_before_replay(prog, b):
     root = b.root
